@@ -647,7 +647,14 @@ pub fn run_property(ctx: &Ctx, prop: &'static Property) -> i32 {
 
     // 3. searches
     let mut reports = Vec::new();
+    // development aid: VERIF_ONLY=<part of a search name> runs only the searches so named
+    let only = std::env::var("VERIF_ONLY").ok();
     for s in &prop.searches {
+        if let Some(o) = &only {
+            if !s.name().contains(o.as_str()) {
+                continue;
+            }
+        }
         let mut r = s.run(ctx, &open_names);
         // a failure that is trouble of the harness's own making (it says so: "INFRA:") is never
         // a violation: the search is inconclusive
